@@ -24,7 +24,7 @@ RULE = ("a case = one event history over {send, explicit authenticate (good / to
         "connection was opened never uses that connection again. Plus one long session (> 4096 packets quick, > 65536 thorough) on a single "
         "connection. distinct = (history, lifetime); non-trivial = histories with >= 1 letter")
 ASSUMPTIONS = ["histories start with a successful explicit authenticate (the library learns the device is V3 from that call)",
-               "max_connection_lifetime is configured before the first connection",
+               "max_connection_lifetime is configured before the first connection and may be applied again (same value) while connected",
                "'bad credentials' = a token the device rejects; a wrong *key* with an accepted token (device rotates, client refuses) is not judged",
                "event instants are offset by irrational-ish idle times so that no exchange starts exactly on an expiry instant"]
 ANCHORS = ["lan.py:LAN.send", "lan.py:LAN.authenticate", "lan.py:_LanProtocolV3.authenticated", "lan.py:LAN._alive",
@@ -33,11 +33,11 @@ MIN_NONTRIVIAL = {"quick": 1500, "thorough": 30000}
 MIN_HIST = {"quick": {"expiry-12h-judged": 60, "lifetime-judged": 100, "long-session-packets": 4500},
             "thorough": {"expiry-12h-judged": 2000, "lifetime-judged": 2000, "long-session-packets": 66000}}
 WORKERS = {"quick": 1, "thorough": 16}
-EXHAUSTIVE = {"quick": ["all histories of depth <= 3 over the 12-letter alphabet (lifetime rotating), depth <= 2 x all 4 lifetimes"],
-              "thorough": ["all histories of depth <= 4 over the 12-letter alphabet (lifetime rotating), depth <= 3 x all 4 lifetimes"]}
+EXHAUSTIVE = {"quick": ["all histories of depth <= 3 over the 13-letter alphabet (lifetime rotating), depth <= 2 x all 4 lifetimes"],
+              "thorough": ["all histories of depth <= 4 over the 13-letter alphabet (lifetime rotating), depth <= 3 x all 4 lifetimes"]}
 
 LETTERS = ["send", "auth_good", "auth_bad_token", "send_silent", "send_error", "fin", "fin_refuse_send", "jump_small", "jump12",
-           "jump_life", "send_cancel", "auth_abandoned_then_auth"]
+           "jump_life", "send_cancel", "auth_abandoned_then_auth", "set_lifetime"]
 LIFETIMES = [None, 30, 3600, 46800]
 H12 = 12 * 3600
 TOKEN = bytes(range(1, 65))
@@ -64,11 +64,13 @@ def generate(ctx, rng):
     directed = [["jump_7h", "send", "jump_7h"], ["jump_5h", "send", "jump_5h", "send", "jump_5h"], ["jump_small", "send"] * 13,
                 ["jump_7h", "auth_good", "jump_7h", "send", "jump_7h"], ["jump_5h", "send_error", "jump_5h", "send", "jump_5h"],
                 ["jump_7h", "send", "jump_5h", "send", "jump_small"], ["jump_5h"] * 3, ["jump_7h", "fin", "jump_7h"],
-                ["jump_7h", "auth_bad_token", "jump_7h"], ["send"] * 5 + ["jump_7h", "send", "jump_7h"]]
+                ["jump_7h", "auth_bad_token", "jump_7h"], ["send"] * 5 + ["jump_7h", "send", "jump_7h"],
+                ["jump_25h"], ["jump_49h"], ["send", "jump_25h", "send", "jump_49h"], ["set_lifetime", "jump_life"],
+                ["send", "set_lifetime", "jump_life", "send", "set_lifetime", "jump_small", "jump_life"]]
     for i, h in enumerate(directed):
         for lt in (None, 46800, 3600):
             yield ("d", i, lt), {"kind": "history", "letters": h, "lifetime": lt}
-    extra = LETTERS + ["jump_5h", "jump_7h"]
+    extra = LETTERS + ["jump_5h", "jump_7h", "jump_25h", "jump_49h"]
     for j in range(300 if quick else 24000):
         d = rng.randint(4, 12 if quick else 25)
         yield ("r", j), {"kind": "history", "letters": [rng.choice(extra) for _ in range(d)], "lifetime": rng.choice(LIFETIMES)}
@@ -149,6 +151,13 @@ def run_case(ctx, case):
                     dev.connect_script = ["refuse"]
                     await op(loop, lan, letter, lambda: lan.send(q))
                     dev.connect_script = []
+            elif letter == "set_lifetime":
+                # the application applies its configuration again (same value) while the connection is alive
+                lan.max_connection_lifetime = lifetime
+            elif letter == "jump_25h":
+                await asyncio.sleep(25 * 3600 + 1.11)
+            elif letter == "jump_49h":
+                await asyncio.sleep(49 * 3600 + 1800 + 2.22)
             elif letter == "jump_small":
                 await asyncio.sleep(3600 + 7.77)
             elif letter == "jump_5h":
